@@ -89,9 +89,13 @@ type Case struct {
 	Req       []KV   `json:"req,omitempty"`
 	Hdr       []KV   `json:"hdr,omitempty"`
 	Trl       []KV   `json:"trl,omitempty"`
-	ReqMode   string `json:"req_mode"` // new | append
+	ReqMode   string `json:"req_mode"` // new | append | new+append
 	HdrMode   string `json:"hdr_mode"` // set | send | set/val | set+send | ctx:set | ctx:send
 	TrlMode   string `json:"trl_mode"` // one | val | late | ctx
+	// per-RPC credentials (grpc.PerRPCCredentials call option): the metadata GetRequestMetadata returns, one value
+	// per key (ids into the key's alphabet); empty = the option is not passed at all
+	Creds      []KV `json:"creds,omitempty"`
+	CredsUpper bool `json:"creds_upper,omitempty"` // the credentials spell their keys in upper case ("K", "B-BIN")
 }
 
 const (
@@ -116,8 +120,54 @@ func kvString(m []KV) string {
 }
 
 func (c Case) key() string {
-	return fmt.Sprintf("%s|%s|f%v|n%d|h%v|o%d|%s:%s|%s:%s|%s:%s", c.Transport, c.Kind, c.Fail, c.NResp, c.HdrFirst, c.Opts,
+	s := fmt.Sprintf("%s|%s|f%v|n%d|h%v|o%d|%s:%s|%s:%s|%s:%s", c.Transport, c.Kind, c.Fail, c.NResp, c.HdrFirst, c.Opts,
 		c.ReqMode, kvString(c.Req), c.HdrMode, kvString(c.Hdr), c.TrlMode, kvString(c.Trl))
+	if len(c.Creds) > 0 {
+		s += "|creds:" + c.credsString()
+	}
+	return s
+}
+
+// credsString: the credentials' metadata as the credentials spell it.
+func (c Case) credsString() string {
+	if c.CredsUpper {
+		return upperKeys(c.Creds)
+	}
+	return kvString(c.Creds)
+}
+
+func upperKeys(m []KV) string {
+	var parts []string
+	for _, e := range m {
+		parts = append(parts, strings.ToUpper(e.Key)+"=["+strings.Join(e.Vals, ",")+"]")
+	}
+	return strings.Join(parts, " ")
+}
+
+// credsMap: what the credentials' GetRequestMetadata returns in this case.
+func (c Case) credsMap() map[string]string {
+	out := map[string]string{}
+	for _, e := range c.Creds {
+		k := e.Key
+		if c.CredsUpper {
+			k = strings.ToUpper(k)
+		}
+		out[k] = valOf(e.Key, e.Vals[0])
+	}
+	return out
+}
+
+// sharedKeys: the keys both the caller's request metadata and the credentials carry.
+func (c Case) sharedKeys() []string {
+	var out []string
+	for _, e := range c.Req {
+		for _, ce := range c.Creds {
+			if ce.Key == e.Key {
+				out = append(out, e.Key)
+			}
+		}
+	}
+	return out
 }
 
 func (c Case) String() string {
@@ -136,6 +186,9 @@ func (c Case) String() string {
 	s += fmt.Sprintf(" opts=%d", c.Opts)
 	if len(c.Req) > 0 {
 		s += " req(" + c.ReqMode + "){" + kvString(c.Req) + "}"
+	}
+	if len(c.Creds) > 0 {
+		s += " creds{" + c.credsString() + "}"
 	}
 	if len(c.Hdr) > 0 {
 		s += " hdr(" + c.HdrMode + "){" + kvString(c.Hdr) + "}"
@@ -156,6 +209,9 @@ func cloneKVs(m []KV) []KV {
 
 func (c Case) clone() Case {
 	c.Req, c.Hdr, c.Trl = cloneKVs(c.Req), cloneKVs(c.Hdr), cloneKVs(c.Trl)
+	if c.Creds != nil {
+		c.Creds = cloneKVs(c.Creds)
+	}
 	return c
 }
 
@@ -271,6 +327,11 @@ type unit struct {
 	Part                      string
 	Req, Hdr, Trl             []KV
 	ReqMode, HdrMode, TrlMode string
+	Creds                     []KV
+	CredsUpper                bool
+	// Narrow: expanded with kind x outcome x transport only (no response messages beyond the kind's minimum,
+	// Header() first, one grpc.Header and one grpc.Trailer option), not with nresp x Header() position x option count
+	Narrow bool
 }
 
 func (u unit) with(pos string, m []KV, mode string) unit {
@@ -290,7 +351,7 @@ var positions = []string{"request", "header", "trailer"}
 func modesOf(pos string) []string {
 	switch pos {
 	case "request":
-		return []string{"new", "append"}
+		return []string{"new", "append", "new+append"}
 	case "header":
 		return []string{"set", "send", "set/val", "set+send", "ctx:set", "ctx:send"}
 	}
@@ -298,7 +359,9 @@ func modesOf(pos string) []string {
 }
 
 // splitMode: the mode only differs from another one when there are >= 2 values
-func splitMode(m string) bool { return m == "set/val" || m == "set+send" || m == "val" }
+func splitMode(m string) bool {
+	return m == "set/val" || m == "set+send" || m == "val" || m == "new+append"
+}
 
 func baseUnit(part string) unit {
 	return unit{Part: part, ReqMode: baseReqMode, HdrMode: baseHdrMode, TrlMode: baseTrlMode}
@@ -336,7 +399,8 @@ func fullMap(r int) []KV {
 //	part multi:  one position carries a map with two keys (every pair of keys, every pair of single values) or all
 //	             five keys (5 rotations, two values each) x every mode
 //	part triple: all three positions carry a map at once (a fixed set of representative maps, cubed), base modes
-func units(maxLen int, multiModesAll bool, tripleSet int) []unit {
+//	parts creds, creds-sweep: the per-RPC credentials dimension, see credsUnits
+func units(maxLen int, multiModesAll bool, tripleSet int, thorough bool) []unit {
 	var out []unit
 	for n := 1; n <= maxLen; n++ {
 		for _, pos := range positions {
@@ -398,6 +462,7 @@ func units(maxLen int, multiModesAll bool, tripleSet int) []unit {
 			}
 		}
 	}
+	out = append(out, credsUnits(thorough)...)
 	return out
 }
 
@@ -408,8 +473,12 @@ func expand(u unit, transports []string, f func(Case)) {
 			for nresp := 0; nresp <= 1; nresp++ {
 				for _, hdrFirst := range []bool{true, false} {
 					for opts := 0; opts <= 2; opts++ {
+						if u.Narrow && (nresp != 0 || !hdrFirst || opts != 1) {
+							continue
+						}
 						c := Case{Engine: "E2", Kind: kind, Fail: fail, NResp: nresp, HdrFirst: hdrFirst, Opts: opts,
-							Req: u.Req, Hdr: u.Hdr, Trl: u.Trl, ReqMode: u.ReqMode, HdrMode: u.HdrMode, TrlMode: u.TrlMode}
+							Req: u.Req, Hdr: u.Hdr, Trl: u.Trl, ReqMode: u.ReqMode, HdrMode: u.HdrMode, TrlMode: u.TrlMode,
+							Creds: u.Creds, CredsUpper: u.CredsUpper}
 						for _, t := range transports {
 							c.Transport = t
 							if c.valid() {
